@@ -35,7 +35,11 @@ Violated(e, r, n) ==
     \* built-in options are never named by a case
     [] n = "untouched" -> r.wf /\ \E i \in 1..Len(tab) : tab[i].builtin /\ r.store[i] # Norm(e.init)[i]
 
+\* every registered name list is in the table as its first word (the name) with the other words as synonyms, in order
+Registered(decl, opts) == \E i \in 1..Len(opts) : <<opts[i].name>> \o opts[i].syn = Words(decl)
 TTable == /\ E.e = "Table" /\ Step /\ tab' = E.opts /\ UNCHANGED nwf
+          /\ LET lost == {k \in 1..Len(E.decls) : ~Registered(E.decls[k], E.opts)}
+             IN (lost = {} /\ Len(E.decls) = 6) \/ Bad(-1, {"table"})
 TRun == /\ E.e = "Run" /\ Step /\ UNCHANGED tab
         /\ LET r == ParseAll(tab, Norm(E.init), E.env, E.echoOn, E.thr)
                wrong == {n \in Clauses : Violated(E, r, n)}
